@@ -208,6 +208,17 @@ func extractC17() *lean {
 	l.def("dpopParseErrConds", "List String", leanStrList(dp), dp)
 	dpCalls := c17Calls(funcDecl(dpF, "Parse"))
 	l.def("dpopParseCalls", "List String", leanStrList(dpCalls), dpCalls)
+	// the verification call of dpop.Parse, verbatim: algorithm and key both come from the protected header
+	dpVerify := "MISSING"
+	if fd := funcDecl(dpF, "Parse"); fd != nil {
+		ast.Inspect(fd, func(n ast.Node) bool {
+			if c, ok := n.(*ast.CallExpr); ok && exprString(c.Fun) == "jwt.ParseString" {
+				dpVerify = c17Src(c)
+			}
+			return true
+		})
+	}
+	l.def("dpopVerifyCall", "String", fmt.Sprintf("%q", dpVerify), dpVerify)
 	typ := "MISSING"
 	for _, c := range dp {
 		if strings.HasPrefix(c, "headers.Type() != ") {
